@@ -1317,6 +1317,10 @@ impl<'h> Exec<'h> {
         r
     }
 
+    pub fn debug_exec_no_model(&mut self, i: usize, op: &Op) -> Result<(), String> {
+        self.exec_op(i, op)
+    }
+
     fn property_for_error(op: &Op, err: &str) -> &'static str {
         if err.starts_with("VERIFY") {
             return "C04";
